@@ -460,15 +460,45 @@ pub fn replay(v: &Value) -> i32 {
 /// never extends a history by a call that leaves the caches unchanged, so state the subject keeps OUTSIDE the caches
 /// (process- or thread-wide, or in a private field) and sets during such a call is only visible here.
 pub fn unmerged_check(depth: usize) -> (Vec<Issue>, u64) {
-    use crate::cform::*;
-    use crate::refmodel::*;
-    use rayon::prelude::*;
+    // alphabet 1: one id, two instances that both decode both protocols
     let allowed = vec![vec![5u16, 7, 9, 10], vec![9u16, 10]];
     let mut actions = vec![];
     for i in 0..2 {
         actions.extend(alphabet(i, &allowed[i], &[256], 3));
     }
-    let m = HistModel::new(2, allowed.clone(), actions, 64);
+    let (mut issues, mut total) = unmerged_over(allowed, actions, depth);
+    // alphabet 2: one instance, two ids plus an id nobody defines, reduced to definitions and data (state kept in the
+    // parser object between data flowsets, e.g. a "current template" shortcut, needs several ids and several calls)
+    let allowed = vec![vec![5u16, 7, 9, 10]];
+    let mut actions = vec![];
+    for (proto, pn) in [(9u16, "V9"), (10, "IPFIX")] {
+        let t = |id: u16, l: usize| if proto == 9 { v9p(vec![v9_t(id, l)]) } else { ipm(vec![ip_t(id, l)]) };
+        let d = |id: u16, salt: usize| if proto == 9 { v9p(vec![V9Set::Data(id, body12(salt))]) } else { ipm(vec![IpfixSet::Data(id, body12(salt))]) };
+        for (name, bytes, defines) in [
+            (format!("T({},256,A)", pn), t(256, 0), true),
+            (format!("T({},256,B)", pn), t(256, 1), true),
+            (format!("T({},257,A)", pn), t(257, 0), true),
+            (format!("D({},256)", pn), d(256, 3), false),
+            (format!("D({},257)", pn), d(257, 4), false),
+            (format!("D({},300 never defined)", pn), d(300, 5), false),
+        ] {
+            actions.push(ActionSpec { name: format!("p0.{}", name), inst: 0, bytes, parts: None, proto, inert: !defines, defines });
+        }
+    }
+    let (i2, t2) = unmerged_over(allowed, actions, depth + 2);
+    issues.extend(i2);
+    total += t2;
+    issues.sort_by(|a, b| a.sig.cmp(&b.sig));
+    issues.dedup_by(|a, b| a.sig == b.sig);
+    (issues, total)
+}
+
+fn unmerged_over(allowed: Vec<Vec<u16>>, actions: Vec<ActionSpec>, depth: usize) -> (Vec<Issue>, u64) {
+    use crate::cform::*;
+    use crate::refmodel::*;
+    use rayon::prelude::*;
+    let ninst = allowed.len();
+    let m = HistModel::new(ninst, allowed.clone(), actions, 64);
     let n = m.actions.len() as u64;
     let mut total = 0u64;
     let mut found: std::collections::BTreeMap<String, (Vec<u16>, String)> = Default::default();
@@ -479,8 +509,8 @@ pub fn unmerged_check(depth: usize) -> (Vec<Issue>, u64) {
             .into_par_iter()
             .filter_map(|idx| {
                 let hist: Vec<u16> = crate::util::digits(idx, &vec![n; len]).into_iter().rev().map(|d| d as u16).collect();
-                let mut ps: Vec<netflow_parser::NetflowParser> = (0..2).map(|j| m.fresh(j)).collect();
-                let mut pure: Vec<RefCache> = vec![RefCache::default(); 2];
+                let mut ps: Vec<netflow_parser::NetflowParser> = (0..ninst).map(|j| m.fresh(j)).collect();
+                let mut pure: Vec<RefCache> = vec![RefCache::default(); ninst];
                 let mut last: Option<(String, String)> = None;
                 for (k, a) in hist.iter().enumerate() {
                     let a = &m.actions[*a as usize];
